@@ -63,7 +63,7 @@ def _public(I, cmd, name):
     try:
         return I.get_attr(cmd, name, None, _F())
     except PyRaise:
-        return cmd.attrs.get("_" + name)
+        return None
 
 
 def exc_name(p):
@@ -86,6 +86,8 @@ def discarded_exceptions(prog, p):
 
 
 def check(prog, run):
+    from .c03 import prime_layouts
+    prime_layouts(prog)
     I = prog.I
     run.explanation = ("both transports' execute() and the facade are abstractly interpreted over stand-in bindings that fork on "
                        "every outcome the real binding may have (sgio.execute returns / raises CheckConditionError / raises another "
@@ -178,8 +180,8 @@ def check_sgio(prog, run):
                 cmd, cdb, dout, din = marker_cmd(prog, 0, 8)
                 if prior:
                     # the same command object is executed again after an earlier CHECK CONDITION (a retry loop)
-                    cmd.attrs["_sense"] = External("sense-of-the-previous-failure")
-                    cmd.attrs["_raw_sense_data"] = External("sense-of-the-previous-failure") if raw else None
+                    set_pub(I, cmd, "sense", External("sense-of-the-previous-failure"))
+                    set_pub(I, cmd, "raw_sense_data", External("sense-of-the-previous-failure") if raw else None)
                 try:
                     I.call_function(ex, [dev, cmd], {"en_raw_sense": raw}, None, _F())
                 finally:
@@ -267,7 +269,7 @@ def check_iscsi(prog, run):
                 dev = make_iscsi_device(prog)
                 cmd, cdb, dout, din = marker_cmd(prog, 0, 8)
                 if prior:
-                    cmd.attrs["_sense"] = External("sense-of-the-previous-failure")
+                    set_pub(I, cmd, "sense", External("sense-of-the-previous-failure"))
                 try:
                     I.call_function(ex, [dev, cmd], {"en_raw_sense": raw}, None, _F())
                 finally:
@@ -400,7 +402,7 @@ def check_facade(prog, run):
                                       file, line, "pyscsi.pyscsi.scsi:SCSI.%s" % name)
                     elif p.returned:
                         cmd = p.value[0]
-                        rawv = _public(I, cmd, "raw_sense_data") if isinstance(cmd, Instance) else None
+                        rawv = p.value[3].get("raw_sense_data") if isinstance(cmd, Instance) else None
                         if fspec["raw_sense"] and isinstance(rawv, External) and kind == "CHECK CONDITION":
                             run.ok("facade-passes-error-on", c, {"note": "raw sense requested and attached"})
                         else:
